@@ -253,6 +253,7 @@ func RWRUnlock(site string, m *sync.RWMutex) {
 type FileSystem interface {
 	ReadFile(name string) ([]byte, error)
 	ReadDir(name string) ([]fs.FileInfo, error)
+	Stat(name string) (fs.FileInfo, error)
 }
 
 // FS, when non-nil, replaces the real disk for every redirected call.
@@ -292,4 +293,18 @@ func OsReadDir(name string) ([]os.DirEntry, error) {
 		return out, nil
 	}
 	return os.ReadDir(name)
+}
+
+func OsStat(name string) (fs.FileInfo, error) {
+	if FS != nil {
+		return FS.Stat(name)
+	}
+	return os.Stat(name)
+}
+
+func OsLstat(name string) (fs.FileInfo, error) {
+	if FS != nil {
+		return FS.Stat(name)
+	}
+	return os.Lstat(name)
 }
